@@ -588,11 +588,11 @@ func wsmsgEnum(args []string, w *bufio.Writer) {
 	sessions := []sess{
 		{16, 16, []string{"msg 1 f:68656c6c6f"}},
 		{16, 5, []string{"msg 2 f:6865 f:6c6c6f", "msg 1 f:-"}},
-		{16, 8, []string{"msg 1 f:01 p:aa f:02 q:- f:-"}},                           // control frames between fragments, empty final fragment
-		{16, 8, []string{"msg 2 p:0102 f:- f:- f:616263", "tail q:bb p:-"}},          // empty fragments, leading and trailing controls
-		{4, 4, []string{"msg 1 f:61626364", "msg 2 f:61 f:62 f:63 f:64"}},           // exactly the maximum
+		{16, 8, []string{"msg 1 f:01 p:aa f:02 q:- f:-"}},                                     // control frames between fragments, empty final fragment
+		{16, 8, []string{"msg 2 p:0102 f:- f:- f:616263", "tail q:bb p:-"}},                   // empty fragments, leading and trailing controls
+		{4, 4, []string{"msg 1 f:61626364", "msg 2 f:61 f:62 f:63 f:64"}},                     // exactly the maximum
 		{200, 200, []string{"msg 2 f:" + rp(126, 1), "msg 1 f:01 p:" + rp(125, 3) + " f:02"}}, // 16-bit length, longest control frame
-		{70000, 65540, []string{"msg 2 f:" + rp(3, 9) + " f:" + rp(65536, 2) + " f:-"}},    // 64-bit length
+		{70000, 65540, []string{"msg 2 f:" + rp(3, 9) + " f:" + rp(65536, 2) + " f:-"}},       // 64-bit length
 	}
 	k := 0
 	for _, s := range sessions {
